@@ -130,10 +130,12 @@ def gen_program(rng, lang=None, max_entities=10):
                 _gen_typedef(prog, rng, idx)
             elif r < 86:
                 _gen_alias_template(prog, rng, idx)
-            elif r < 92:
+            elif r < 90:
                 _gen_function(prog, rng, idx)
-            elif r < 96:
+            elif r < 94:
                 _gen_var(prog, rng, idx)
+            elif r < 98:
+                _gen_namespace(prog, rng, idx)
             else:
                 _gen_enum(prog, rng, idx)
     _gen_flags(prog, rng)
@@ -148,8 +150,15 @@ def _gen_record(prog, rng, idx, kw):
     cpp = prog.lang == "c++"
     if cpp and kw == "struct":
         cands = prog.names(("struct", "class"))
+        # a base may also be named through a typedef of a struct
+        cands += [e.name for e in prog.entities if e.kind == "typedef" and getattr(e, "target_record", None)]
         nb = 0 if not cands else rng.pick([0, 0, 1, 1, 2])
+        seen_targets = set()
         for b in rng.sample(cands, min(nb, len(cands))):
+            tgt = getattr(prog.by_name[b], "target_record", None) or b
+            if tgt in seen_targets:
+                continue  # the same class twice as a direct base is ill-formed
+            seen_targets.add(tgt)
             hard |= prog.by_name[b].complete
             bases.append(("virtual " if rng.chance(120) else "") + "public " + b)
     nf = rng.below(5)
@@ -293,8 +302,12 @@ def _gen_typedef(prog, rng, idx):
         if ptr:
             prog.add(Entity(name, "typedef", f"typedef {prog.spell(t)}* {name};", soft={t}))
         else:
-            prog.add(Entity(name, "typedef", f"typedef {prog.spell(t)} {name};", soft={t},
-                            complete=te.complete))
+            e = Entity(name, "typedef", f"typedef {prog.spell(t)} {name};", soft={t}, complete=te.complete)
+            if te.kind in ("struct", "class"):
+                e.target_record = t
+            elif getattr(te, "target_record", None):
+                e.target_record = te.target_record
+            prog.add(e)
     else:
         p = rng.pick(C_PRIMS)
         prog.add(Entity(name, "typedef", f"typedef {p} {name};"))
@@ -334,6 +347,29 @@ def _gen_function(prog, rng, idx):
     prog.add(Entity(name, "function", f"{ret} {name}({', '.join(params) or 'void'});", hard, soft))
 
 
+INNER_NAMES = ["Level", "Kind", "Mode"]
+
+
+def _gen_namespace(prog, rng, idx):
+    """A namespace with a few self-contained declarations whose names are drawn
+    from a small pool, so that different namespaces reuse a name for different
+    kinds of things (an integer typedef here, an enum there)."""
+    name = f"ns{idx}"
+    body = []
+    for inner in rng.sample(INNER_NAMES, 1 + rng.below(2)):
+        r = rng.below(4)
+        if r == 0:
+            body.append(f"    typedef {rng.pick(['unsigned', 'int', 'short'])} {inner};")
+        elif r == 1:
+            body.append(f"    enum {inner} {{ {inner}_{idx}_a, {inner}_{idx}_b = 4 }};")
+        elif r == 2:
+            body.append(f"    struct {inner} {{ int v; {rng.pick(C_PRIMS)} w; }};")
+        else:
+            body.append(f"    enum {inner} : short {{ {inner}_{idx}_x }};\n    typedef {inner} {inner}_alias{idx};")
+    body.append(f"    struct In{idx} {{ int i{idx}; }};")
+    prog.add(Entity(name, "namespace", f"namespace {name} {{\n" + "\n".join(body) + "\n}"))
+
+
 def _gen_var(prog, rng, idx):
     """A non-defining variable declaration: the one place where a type may be
     met by the parser before (or after) its definition at top level."""
@@ -346,6 +382,9 @@ def _gen_var(prog, rng, idx):
             prog.add(Entity(name, "var", f"extern {prog.spell(t)} {name};", soft={t}))
         elif form == 1:
             prog.add(Entity(name, "var", f"extern {prog.spell(t)}* {name};", soft={t}))
+        elif prog.lang == "c":
+            # C wants a complete element type even for an extern array
+            prog.add(Entity(name, "var", f"extern {prog.spell(t)} {name}[];", hard=set(prog.by_name[t].complete)))
         else:
             prog.add(Entity(name, "var", f"extern {prog.spell(t)} {name}[];", soft={t}))
     else:
@@ -368,7 +407,7 @@ def _gen_flags(prog, rng):
                  ("--with-derive-partialord", 500), ("--with-derive-ord", 500),
                  ("--impl-debug", 200), ("--impl-partialeq", 200),
                  ("--no-layout-tests", 100), ("--vtable-generation", 300),
-                 ("--enable-cxx-namespaces", 100), ("--no-derive-copy", 60),
+                 ("--enable-cxx-namespaces", 450 if prog.names(("namespace",)) else 100), ("--no-derive-copy", 60),
                  ("--no-derive-debug", 60)]:
         if rng.chance(p):
             flags.append(f)
